@@ -2,6 +2,8 @@ package exec
 
 import (
 	"context"
+	"os"
+	"runtime"
 	"encoding/binary"
 	"time"
 
@@ -37,6 +39,10 @@ func (r *Run) doStats(op *plan.Op, rec *plan.Rec) {
 
 func (r *Run) doCtlExtra(sc *plan.Script, op *plan.Op, rec *plan.Rec) bool {
 	switch op.K {
+	case "ctl.stacks":
+		// debugging aid: all goroutine stacks to stderr
+		buf := make([]byte, 8<<20)
+		os.Stderr.Write(buf[:runtime.Stack(buf, true)])
 	case "ctl.snapshot":
 		rec.Snap = r.Snapshot(op.Flag)
 	case "ctl.plant":
